@@ -8,7 +8,7 @@ def run(ctx):
         "hand model coq/model/CompBasis.v of _add_single_pauli/_add_pauli (exact: N bit operations, Z phase), tied to "
         "the code by vm_compute correspondence (corr_C16.py) and AST fingerprints",
         "documented Pauli matrices (coq/lib/Gates.v)",
-        "partial: comp_basis_superposition and mixed Pauli/non-Pauli chains are decided by the dense numpy sweep "
+        "partial: mixed Pauli/non-Pauli chains and the X-gate preparation part of comp_basis_superposition are decided by the dense numpy sweep "
         "(no theorem yet); lowest_bit_index's 64-bit limit is a stated precondition",
     ]
     fingerprint.check(ctx, "packages/core/quri_parts/core/state/comp_basis.py",
